@@ -205,6 +205,14 @@ func vfC11Run(cs vfC11Case, res *vfC11Res) string {
 			if localIsClient && run.clientSaid != "fail" {
 				return fmt.Sprintf("the client failed locally (%s) but sent no fail line: %s", cs.Fault, run.describe())
 			}
+			// "tells its peer why": the reason is the local failure. A side that only ran into its receive timeout did not notice
+			// its own failure at all (and would wait for ever with a timeout of zero).
+			if localIsClient && strings.Contains(strings.ToLower(run.clientText), "receive data timeout") {
+				return fmt.Sprintf("the client failed locally (%s) but all it told its peer is a timeout: %s", cs.Fault, run.describe())
+			}
+			if !localIsClient && strings.Contains(strings.ToLower(run.serverMsg), "receive data timeout") {
+				return fmt.Sprintf("the server failed locally (%s) but all it reports is a timeout: %s", cs.Fault, run.describe())
+			}
 			if !localIsClient {
 				sawFail := false
 				for _, m := range sess.wire("s2c").messages() {
